@@ -287,8 +287,29 @@ def judge(family, case, rec):
                                  float(Xs[:, j].mean()) if kind == "mean" else float(S_[j, k]),
                                  float(pop_mean[j]) if kind == "mean" else float(pop_cov[j, k])))
                 break
-    # i.i.d. rows and Gaussian marginals
+    # joint normality (Cramer-Wold): every linear combination a'x of a Gaussian vector is N(a'mu, a'Sigma a); a law with
+    # Gaussian marginals but another dependence structure fails this for some direction a
     eps = S.dkw_eps(n)
+    liv = np.where(live)[0]
+    if len(liv) >= 2:
+        prng = util.rng_for("C04proj", case["rs"])
+        sdl = np.sqrt(d[liv])
+        for t in range(4):
+            a = np.zeros(p)
+            a[liv] = prng.normal(size=len(liv)) / sdl if t % 2 == 0 else prng.choice([-1.0, 1.0], size=len(liv)) / sdl
+            va = float(a @ pop_cov @ a)
+            if va <= 1e-9 * float(np.sum((a[liv] * sdl) ** 2)):
+                continue        # (nearly) degenerate direction of a singular covariance
+            proj = Xs @ a
+            ks = S.ks_distance(proj, lambda x, m=float(a @ pop_mean), sd=math.sqrt(va): S.norm_cdf(x, m, sd))
+            rec.count("projections-tested")
+            rec.max("max-ks/dkw-band(projections)", ks / eps)
+            if ks > eps:
+                rec.violation("C04:%s-not-jointly-gaussian" % family, family, case,
+                              "the linear combination a'x with a = %s deviates by %.4f from N(a'mu, a'Sigma a) (DKW band %.4f): the rows do not follow "
+                              "the population law jointly" % (np.round(a, 3).tolist(), ks, eps))
+                break
+    # i.i.d. rows and Gaussian marginals
     for j in range(p):
         if d[j] <= 0:
             continue
@@ -300,6 +321,19 @@ def judge(family, case, rec):
         if dups >= 10 + 10 * expected:
             rec.violation("C04:%s-repeated-rows" % family, family, case, "variable %d: %d of %d values repeat an earlier one: rows are not i.i.d." % (j, dups, n))
             break
+        for stat_name, zz, stat_fn in (("lag2", S.z_lag(col, 2), lambda c: S.z_lag(c, 2)), ("lag7", S.z_lag(col, 7), lambda c: S.z_lag(c, 7)),
+                                       ("halves", S.z_halves(col, d[j]), lambda c, v=d[j]: S.z_halves(c, v))):
+            rec.max("max|z|-" + stat_name, abs(zz))
+            if abs(zz) > S.Z_SUSPECT:
+                rec.count("escalations")
+
+                def rerun_s(r, nn, j=j, stat_fn=stat_fn):
+                    return stat_fn(np.asarray(draw(util.derive_seed("C04" + stat_name, case["rs"], r) % (2**31), nn))[:, j])
+                bad, zs = S.confirm(rerun_s, n)
+                if bad:
+                    rec.violation("C04:%s-rows-not-iid-%s" % (family, stat_name), family, case,
+                                  "variable %d: %s statistic z = %s on three fresh seeds" % (j, stat_name, ["%.1f" % v for v in zs]))
+                    return
         zl = S.z_lag1(col)
         rec.max("max|z|-lag1", abs(zl))
         if abs(zl) > S.Z_SUSPECT:
